@@ -128,6 +128,75 @@ class Census:
         return out
 
 
+NORMALISERS = ('pythonic_index', 'pythonic_index_isize', 'cyclic_index', 'pythonic_slice_obj', 'pythonic_slice', 'clamped_pythonic_index',
+               'obj_to_isize_slice_index', 'safe_index_inner')
+INDEX_RE = re.compile(r'::index(_mut)?$')
+
+
+def index_operand_origins(b, op, depth=0):
+    """origins of an index operand; std::ops::Range* aggregates are opened (origins of their bounds)"""
+    from .core import origins
+    og = origins(b, op, passthru=('branch', 'from_output'))
+    out = set()
+    for o in og:
+        if o[0] == 'agg' and o[1].startswith('std::ops::Range') and depth < 3 and op[0] in ('c', 'm'):
+            L = op[1][0]
+            seenl = set()
+            work = [L]
+            while work:
+                x = work.pop()
+                if x in seenl:
+                    continue
+                seenl.add(x)
+                for (bb, j, kind, st) in b.defs().get(x, []):
+                    if kind != 'a':
+                        continue
+                    rv = st[2]
+                    if rv[0] == 'agg' and len(rv) > 5 and str(rv[2]).startswith('std::ops::Range'):
+                        if not rv[5]:
+                            out.add(('rangefull',))
+                        for fo in rv[5]:
+                            out |= index_operand_origins(b, fo, depth + 1)
+                    elif rv[0] == 'use' and rv[1][0] in ('c', 'm'):
+                        work.append(rv[1][1][0])
+        else:
+            out.add(o)
+    return out
+
+
+def index_sites(census, fns):
+    """every panicking indexing operation: MIR BoundsCheck asserts (arrays / slices indexed by usize) and calls of
+    Index::index / IndexMut::index_mut on Vec, slices, str and HashMap. -> [(fn_key, kind, body, bb, auto_class or None)]"""
+    F = census.F
+    out = []
+    for fn in sorted(fns):
+        if not F.has_fn(fn):
+            continue
+        b = F.body(fn)
+        fk = census.fn_key(fn)
+        for bb, t in b.asserts():
+            if t[3] == 'BoundsCheck':
+                out.append((fk, 'BoundsCheck', b, bb, None))
+        for c in b.calls:
+            if not (INDEX_RE.search(c.target) and 'ops::Index' in c.target):
+                continue
+            g = c.callee.get('g') or []
+            ity = str(g[1]) if len(g) > 1 else '?'
+            kind = 'str' if ('for str' in c.target or 'string::String' in c.target) else ('HashMap' if 'HashMap' in c.target else ('slice' if 'for [T]' in c.target else ('Vec' if 'vec::Vec' in c.target else 'other')))
+            if 'Range' in ity:
+                kind += '-range'
+            auto = None
+            if 'RangeFull' in ity:
+                auto = 'full-range'
+            else:
+                og = index_operand_origins(b, c.args[1]) if len(c.args) > 1 else set()
+                if og and all((o[0] == 'call' and o[1].rsplit('::', 1)[-1] in NORMALISERS) or (o[0] == 'const') or o[0] == 'rangefull' for o in og) \
+                        and any(o[0] == 'call' for o in og) and not kind.startswith('str'):
+                    auto = 'normalised'
+            out.append((fk, kind, b, c.bb, auto))
+    return out
+
+
 INT_W = {'u8': 8, 'i8': 8, 'u16': 16, 'i16': 16, 'u32': 32, 'i32': 32, 'u64': 64, 'i64': 64, 'usize': 64, 'isize': 64, 'u128': 128, 'i128': 128}
 
 
